@@ -964,13 +964,17 @@ func macroItVerse(exp Exporter, args [][]ast.Inline) {
 		exp.BeginParagraph()
 		exp.BeginVerseLine()
 		ctx.parScope = true
-	} else {
-		if !ctx.verseScope {
-			ctx.Error("found verse text outside of It scope")
-		} else {
-			exp.EndVerseLine()
-		}
+		reopenSpanningBlocks(exp)
+	} else if !ctx.verseScope {
+		ctx.Error("found verse text outside of It scope")
 		exp.BeginVerseLine()
+	} else {
+		// markup spanning several verse lines is closed and reopened
+		// around the line break, as it is around paragraph breaks
+		closeSpanningBlocks(exp)
+		exp.EndVerseLine()
+		exp.BeginVerseLine()
+		reopenSpanningBlocks(exp)
 	}
 	if len(args) > 0 {
 		w := ctx.W()
